@@ -39,6 +39,9 @@ type propSpec struct {
 	Explanation string
 	Assumptions []string
 	NotDecided  string
+	// Scope: if set, only findings located under these path prefixes belong to this
+	// property (the same rules run unrestricted under the property that owns the rest).
+	Scope []string
 }
 
 var ruleTable = map[string]*ruleSpec{}
@@ -282,6 +285,7 @@ func cmdCheck(args []string) int {
 	}
 
 	var broken []string
+	outOfScope := 0
 	var unlisted, listed []Finding
 	obligations, discharged := 0, 0
 	var samples []interface{}
@@ -295,6 +299,18 @@ func cmdCheck(args []string) int {
 		}
 		sortFindings(r.Findings)
 		for _, f := range r.Findings {
+			if len(spec.Scope) > 0 {
+				in := false
+				for _, pre := range spec.Scope {
+					if strings.HasPrefix(f.Pos, pre) {
+						in = true
+					}
+				}
+				if !in {
+					outOfScope++
+					continue
+				}
+			}
 			if _, ok := knownKeys[f.Key]; ok {
 				listed = append(listed, f)
 			} else {
@@ -363,16 +379,18 @@ func cmdCheck(args []string) int {
 		Coverage: map[string]interface{}{
 			"explanation": spec.Explanation + " NOT decided by this check: " + spec.NotDecided,
 			"obligations": obligations, "discharged": discharged,
-			"samples":                 samples,
-			"rule":                    strings.Join(ruleTexts, " || "),
-			"checker_cmd":             "/verif/bin/luaverif check " + id + " --tier " + tier,
-			"trusted_base":            []string{"Go type checker (go/types)", "golang.org/x/tools v0.29.0 go/packages, go/ssa, dominators, VTA+CHA call graph as an over-approximation of calls", "frozen tables compiled into the checker (/verif/checker/tables.go), each entry confirmed by reading"},
-			"configurations":          configsRun,
-			"rules":                   ruleDetails,
-			"known_findings_reported": len(printedKnown),
-			"unlisted_violations":     len(unlisted),
-			"broken":                  broken,
-			"exhaustive":              true,
+			"samples":                              samples,
+			"rule":                                 strings.Join(ruleTexts, " || "),
+			"checker_cmd":                          "/verif/bin/luaverif check " + id + " --tier " + tier,
+			"trusted_base":                         []string{"Go type checker (go/types)", "golang.org/x/tools v0.29.0 go/packages, go/ssa, dominators, VTA+CHA call graph as an over-approximation of calls", "frozen tables compiled into the checker (/verif/checker/tables.go), each entry confirmed by reading"},
+			"configurations":                       configsRun,
+			"rules":                                ruleDetails,
+			"known_findings_reported":              len(printedKnown),
+			"unlisted_violations":                  len(unlisted),
+			"findings_outside_this_property_scope": outOfScope,
+			"scope":                                spec.Scope,
+			"broken":                               broken,
+			"exhaustive":                           true,
 		},
 		Assumptions: spec.Assumptions,
 		WallS:       time.Since(start).Seconds(),
